@@ -209,6 +209,17 @@ func mustFromBlock(p *Program, start *ssa.BasicBlock, hit func(ssa.Instruction) 
 		if depth <= 0 {
 			return false
 		}
+		if _, isRD := in.(*ssa.RunDefers); isRD {
+			// the deferred calls registered on every path to this point run here
+			for _, d := range deferredBefore(in) {
+				if f := deferTarget(d); f != nil && inModule(f) && f != fn {
+					if ok, _ := mustOnAllPaths(p, f, hit, false, depth-1); ok {
+						return true
+					}
+				}
+			}
+			return false
+		}
 		if ci, ok := in.(ssa.CallInstruction); ok {
 			if _, isGo := in.(*ssa.Go); isGo {
 				return false
@@ -1289,7 +1300,95 @@ func ruleNoEmptyBlock(c *Check, p *Program, rule string, owner string) {
 			return
 		}
 		seen[key{v, at}] = true
+		if srcs := capturedSources(v); len(srcs) > 0 {
+			// a variable of the enclosing function used inside a function literal
+			for _, sv := range srcs {
+				check(sv, at, atoms, depth+1)
+			}
+			return
+		}
 		switch x := v.(type) {
+		case *ssa.Extract:
+			// the slice is a result of a helper of the module
+			call, isC := x.Tuple.(*ssa.Call)
+			g := staticCallee(call)
+			if !isC || g == nil || !inModule(g) || len(g.Blocks) == 0 {
+				return
+			}
+			// known to be non-empty where it is used
+			for _, a := range atoms {
+				neg := a
+				neg.Val = !a.Val
+				if z := atomSaysZero(neg); z != nil {
+					if lc, isL := z.(*ssa.Call); isL {
+						if bi, isB := lc.Call.Value.(*ssa.Builtin); isB && bi.Name() == "len" && lc.Call.Args[0] == v {
+							n++
+							c.Sites++
+							c.OK(rule, fname(at.Parent())+"#source-not-empty:"+shortVal(v), p.InstrPos(at), "a slice returned by a helper is handed to the block compressor only when its length is known to be positive", "guard "+a.String(), false)
+							return
+						}
+					}
+				}
+			}
+			resultIdx := func(w ssa.Value) int {
+				if ex, ok := w.(*ssa.Extract); ok && ex.Tuple == ssa.Value(call) {
+					return ex.Index
+				}
+				if ld, ok := w.(*ssa.UnOp); ok && ld.Op == token.MUL {
+					if refs := ld.X.Referrers(); refs != nil {
+						for _, r := range *refs {
+							if st, isS := r.(*ssa.Store); isS && st.Addr == ld.X && st.Block() == call.Block() {
+								if ex, isE := st.Val.(*ssa.Extract); isE && ex.Tuple == ssa.Value(call) {
+									return ex.Index
+								}
+							}
+						}
+					}
+				}
+				return -1
+			}
+			allInstrs(g, func(in ssa.Instruction) {
+				r, isR := in.(*ssa.Return)
+				if !isR || x.Index >= len(r.Results) {
+					return
+				}
+				local := atomsOfBlock(in.Block())
+				var tr []Atom
+				feasible := true
+				for _, a := range atoms {
+					if a.Kind != "errnil" {
+						continue
+					}
+					j := resultIdx(a.V)
+					if j < 0 || j >= len(r.Results) {
+						continue
+					}
+					rv := r.Results[j]
+					if isNilConst(rv) {
+						if !a.Val {
+							feasible = false
+						}
+						continue
+					}
+					t := Atom{Kind: "errnil", Val: a.Val, V: rv}
+					for _, l := range local {
+						if l.Kind == "errnil" && l.V == rv && l.Val != a.Val {
+							feasible = false
+						}
+					}
+					tr = append(tr, t)
+				}
+				if !feasible {
+					return
+				}
+				if isNilConst(r.Results[x.Index]) {
+					n++
+					c.Sites++
+					c.Fail(rule, fname(at.Parent())+"#source-not-empty:"+shortVal(v), p.InstrPos(at), "a slice returned by a helper is handed to the block compressor only when its length is known to be positive", "the helper "+shortFn(g)+" may return an empty slice here (return at "+p.InstrPos(in)+"): an empty block (size word 0x80000000) is emitted before the end mark")
+					return
+				}
+				check(r.Results[x.Index], in, append(tr, local...), depth+1)
+			})
 		case *ssa.Parameter:
 			g := x.Parent()
 			idx := -1
@@ -1353,17 +1452,40 @@ func ruleNoEmptyBlock(c *Check, p *Program, rule string, owner string) {
 			}
 			n++
 			c.Sites++
-			ok, how := false, ""
-			for _, a := range atoms {
-				neg := a
-				neg.Val = !a.Val
-				if z := atomSaysZero(neg); z != nil && same(z, h) {
-					ok, how = true, "guard "+a.String()
-				}
-				if a.Kind == "errnil" && a.Val {
-					if call := readCount(h); call != nil && errOfCall(a.V, call) {
-						ok, how = true, "count of a full io.ReadFull (error known to be nil)"
+			judge := func(atoms []Atom) (bool, string) {
+				ok, how := false, ""
+				for _, a := range atoms {
+					neg := a
+					neg.Val = !a.Val
+					if z := atomSaysZero(neg); z != nil && same(z, h) {
+						ok, how = true, "guard "+a.String()
 					}
+					if a.Kind == "errnil" && a.Val {
+						if call := readCount(h); call != nil && errOfCall(a.V, call) {
+							ok, how = true, "count of a full io.ReadFull (error known to be nil)"
+						}
+					}
+				}
+				return ok, how
+			}
+			ok, how := judge(atoms)
+			if !ok && at.Block() != nil && len(at.Block().Preds) > 1 {
+				// a disjunctive guard (a || b): the fact holds on each incoming edge for its own reason
+				all := true
+				for _, pb := range at.Block().Preds {
+					ea := append([]Atom{}, atoms...)
+					ea = append(ea, atomsOfBlock(pb)...)
+					if ifi, isIf := pb.Instrs[len(pb.Instrs)-1].(*ssa.If); isIf && len(pb.Succs) == 2 && pb.Succs[0] != pb.Succs[1] {
+						ea = append(ea, atomOf(ifi.Cond, pb.Succs[0] == at.Block()))
+					}
+					okE, howE := judge(ea)
+					if !okE {
+						all = false
+					}
+					how = howE
+				}
+				if all {
+					ok, how = true, "on every incoming edge: "+how
 				}
 			}
 			par := ""
@@ -1385,7 +1507,7 @@ func ruleNoEmptyBlock(c *Check, p *Program, rule string, owner string) {
 	}
 	want := 3
 	if owner != "" {
-		want = 2
+		want = 1
 	}
 	for _, cs := range sites {
 		args := cs.Common().Args
@@ -2602,4 +2724,75 @@ func ruleDoneOnEveryError(c *Check, p *Program, rule string) {
 	})
 	c.Sites++
 	c.Cond(bad == "", rule, "CompressingReader.Read#done-on-every-error", p.Pos(ep.Pos()), "whenever Read returns an error the reader moves to its final state (the only branch of the epilogue that skips the transition is err == nil)", "the transition is skipped only on the err == nil edge", "the epilogue can return at "+bad+" without ending the reader although the error may be non-nil: a retry resumes mid-block and silently drops the bytes already taken from the source")
+}
+
+
+// deferredBefore: the defer statements of the function whose block dominates
+// the block of at (they are registered on every path that reaches at).
+func deferredBefore(at ssa.Instruction) []*ssa.Defer {
+	var out []*ssa.Defer
+	fn := at.Parent()
+	for _, b := range fn.Blocks {
+		for _, in := range b.Instrs {
+			if d, ok := in.(*ssa.Defer); ok && (b == at.Block() || b.Dominates(at.Block())) {
+				out = append(out, d)
+			}
+		}
+	}
+	return out
+}
+
+// deferTarget: the function a defer statement runs (a closure literal or a static callee).
+func deferTarget(d *ssa.Defer) *ssa.Function {
+	if f := staticCallee(d); f != nil {
+		return f
+	}
+	if mc, ok := d.Call.Value.(*ssa.MakeClosure); ok {
+		f, _ := mc.Fn.(*ssa.Function)
+		return f
+	}
+	return nil
+}
+
+// deferredResult: the return yields a named result that a deferred closure of the
+// function assigns on all of its paths; the values assigned there are returned.
+func deferredResult(v ssa.Value, ret ssa.Instruction) []ssa.Value {
+	u, ok := v.(*ssa.UnOp)
+	if !ok || u.Op != token.MUL {
+		return nil
+	}
+	cell, ok := u.X.(*ssa.Alloc)
+	if !ok {
+		return nil
+	}
+	for _, d := range deferredBefore(ret) {
+		mc, isMC := d.Call.Value.(*ssa.MakeClosure)
+		if !isMC {
+			continue
+		}
+		f, _ := mc.Fn.(*ssa.Function)
+		if f == nil {
+			continue
+		}
+		for i, bnd := range mc.Bindings {
+			if bnd != ssa.Value(cell) || i >= len(f.FreeVars) {
+				continue
+			}
+			fv := f.FreeVars[i]
+			var vals []ssa.Value
+			isSt := func(in ssa.Instruction) bool {
+				st, isS := in.(*ssa.Store)
+				return isS && st.Addr == ssa.Value(fv)
+			}
+			allInstrs(f, func(in ssa.Instruction) {
+				if isSt(in) {
+					vals = append(vals, in.(*ssa.Store).Val)
+				}
+			})
+			if okAll, _ := mustOnAllPaths(nil, f, isSt, false, 0); okAll && len(vals) > 0 {
+				return vals
+			}
+		}
+	}
+	return nil
 }
